@@ -475,3 +475,6 @@ SPECS["C18"]["rule"] += ("; the same table for Client connections (Dial / Enroll
                          "scenario 'good-bye': the first read fails and the write the handler issues inside OnClose fails too - still one OnClose, no close(2) on a number that is not open")
 SPECS["C19"]["rule"] += ("; client state machine: Dial/DialContext/Enroll/EnrollContext over tcp, unix and udp while running, racing Client.Stop (0..3 goroutines, optional busy loop) and after it - a connection or an error, never both; one OnOpen per connection handed out; errors only once the stop is under way; "
                          "control-API cases with the worker pool exhausted during the running phase (Register/Enroll refused with the pool's error, or result owed)")
+SPECS["C14"]["rule"] += ("; deletions are also aimed at matrix positions (the last and first columns of the rows at and below the next-free slot), since registration order and position part company after the first compaction")
+SPECS["C15"]["rule"] += ("; the policy half also draws address strings forged to have a boundary CRC-32 value (0, 1, 0x7FFFFFFF, 0x80000000, 0x80000001, 0xFFFFFFFE, 0xFFFFFFFF); "
+                         "the engine half, under Source-Addr-Hash, also registers connections through Engine.Register (a net.Conn, optionally with a differing net.Addr in the context): all connections registered to one target share a loop")
